@@ -91,10 +91,48 @@ pub fn check_pair(a: u64, b: u64, subset_limit: usize) -> CaseResult {
     if via_into != seen {
         return Err(fail("C18:into_iter", "IntoIterator differs from iter()".into()));
     }
+    // the standard iterator adaptors must agree with the member list too (an overriding
+    // nth/count/last/fold may not leave the iterator in a state plain next() would not)
+    let members: Vec<u8> = sa.iter().copied().collect();
+    for k in [0usize, 1, 2, members.len().saturating_sub(1), members.len(), members.len() + 3, 64, 70] {
+        let mut it = ba.iter();
+        let got = it.nth(k).map(msq);
+        if got != members.get(k).copied() {
+            return Err(fail("C18:iter-nth", format!("iter().nth({}) = {:?}, the {}-th member is {:?}", k, got, k, members.get(k))));
+        }
+        let rest_want: Vec<u8> = members.iter().copied().skip(k + 1).collect();
+        if it.len() != rest_want.len() || it.size_hint() != (rest_want.len(), Some(rest_want.len())) {
+            return Err(fail("C18:iter-nth-state", format!("after nth({}) the iterator reports len {} / size_hint {:?}, {} members remain", k, it.len(), it.size_hint(), rest_want.len())));
+        }
+        let rest: Vec<u8> = it.map(msq).collect();
+        if rest != rest_want {
+            return Err(fail("C18:iter-nth-state", format!("after nth({}) the iterator yields {:?}, expected {:?}", k, rest, rest_want)));
+        }
+    }
+    if ba.iter().count() != members.len() || ba.iter().last().map(msq) != members.last().copied() || ba.iter().max().map(msq) != members.last().copied() || ba.iter().min().map(msq) != members.first().copied() {
+        return Err(fail("C18:iter-adaptors", "count()/last()/min()/max() disagree with the member list".into()));
+    }
+    if ba.iter().step_by(3).map(msq).collect::<Vec<_>>() != members.iter().copied().step_by(3).collect::<Vec<_>>() || ba.iter().skip(2).map(msq).collect::<Vec<_>>() != members.iter().copied().skip(2).collect::<Vec<_>>() {
+        return Err(fail("C18:iter-adaptors", "step_by(3)/skip(2) disagree with the member list".into()));
+    }
+    if ba.iter().fold(0u64, |m, q| m | 1u64 << msq(q)) != a {
+        return Err(fail("C18:iter-adaptors", "fold over the iterator does not rebuild the set".into()));
+    }
     // collecting squares builds their set (also with duplicates and any order)
     let collected: BitBoard = sa.iter().rev().chain(sa.iter()).map(|&s| lsq(s)).collect();
     if collected.0 != a {
         return Err(fail("C18:from_iter", format!("collecting the member squares gives {:#018x}", collected.0)));
+    }
+    // many repeats first, the other members only after more than 64 items
+    if let Some(&first) = members.first() {
+        let long: BitBoard = std::iter::repeat(first).take(70).chain(members.iter().copied()).map(lsq).collect();
+        if long.0 != a {
+            return Err(fail("C18:from_iter", format!("collecting 70 repeats of one member followed by all members gives {:#018x}", long.0)));
+        }
+    }
+    let none: BitBoard = std::iter::empty::<Square>().collect();
+    if none.0 != 0 {
+        return Err(fail("C18:from_iter", "collecting nothing is not the empty set".into()));
     }
     // flips
     let flip = |x: u64, f: &dyn Fn(i32, i32) -> (i32, i32)| -> u64 { set_of(x).iter().fold(0u64, |m, &s| { let (nf, nr) = f(file_of(s), rank_of(s)); m | 1u64 << sq(nf, nr) }) };
@@ -179,7 +217,7 @@ pub fn check_conversions() -> Vec<Failure> {
 
 pub fn run(ctx: &Ctx) -> Report {
     let mut rep = Report::new(ctx);
-    rep.rule = "Pairs of 64-bit patterns from a density-varied generator (uniform, sparse, dense, single bits, ranks/files, empty/full; equal, nested, disjoint and complementary pairs). Model: BTreeSet<u8>. Checked: | & ^ - ! and assigning forms, has (all 64 squares), is_subset/is_superset/is_disjoint/is_empty/len, next_square, iteration ascending without repeats with exact len()/size_hint at every step, IntoIterator, FromIterator (with duplicates, descending order), flip_ranks/flip_files as involutions mapping (f,r) to (f,7-r)/(7-f,r), iter_subsets (strictly increasing, each a subset, first empty; for masks up to 14 bits all 2^k subsets with last == mask, for larger masks a prefix). Plus From<Square/File/Rank>, File::adjacent and the constants. Non-trivial = both operands non-empty and different; distinct by hash of the pair.".into();
+    rep.rule = "Pairs of 64-bit patterns from a density-varied generator (uniform, sparse, dense, single bits, ranks/files, empty/full; equal, nested, disjoint and complementary pairs). Model: BTreeSet<u8>. Checked: | & ^ - ! and assigning forms, has (all 64 squares), is_subset/is_superset/is_disjoint/is_empty/len, next_square, iteration ascending without repeats with exact len()/size_hint at every step, IntoIterator, the standard adaptors nth (incl. out of range, with the state left behind) / count / last / min / max / step_by / skip / fold, FromIterator (with duplicates, descending order, more than 64 items), flip_ranks/flip_files as involutions mapping (f,r) to (f,7-r)/(7-f,r), iter_subsets (strictly increasing, each a subset, first empty; for masks up to 14 bits all 2^k subsets with last == mask, for larger masks a prefix). Plus From<Square/File/Rank>, File::adjacent and the constants. Non-trivial = both operands non-empty and different; distinct by hash of the pair.".into();
     rep.assumptions = vec!["BTreeSet model of the 64 squares".into()];
     rep.required_classes = vec!["equal-pair", "nested-pair", "disjoint-pair", "complementary-pair", "subset-enumeration-complete", "subset-enumeration-prefix"];
     let cases = ctx.tier.scale(120_000, 30);
